@@ -187,7 +187,10 @@ class Executor:
         self.obls.append(o)
         if ".callreq" in oid or "ghost_assert" in oid:
             # the clauses that carry a property at a specific site must not hold vacuously: the site is reachable
-            self.covers.append((f"{self.c.qual}/{oid}.cover", list(st.pc)))
+            # (one cover per site: the first path that reaches it)
+            cid = f"{self.c.qual}/{oid.split('~')[0].rsplit('.callreq', 1)[0]}.cover"
+            if cid not in {c[0] for c in self.covers}:
+                self.covers.append((cid, list(st.pc)))
 
     def assume_log(self, what):
         self.assumption_log.add(what)
@@ -1267,6 +1270,11 @@ class Executor:
     # -- subscripts
     def ev_Subscript(self, e, st):
         for base, s1 in self.ev(e.value, st):
+            if isinstance(base, FuncRef) and (base.qual in self.reg.classes or base.qual + ".__init__" in self.reg.contracts
+                                              or any(k.startswith(base.qual + ".") for k in self.reg.contracts)):
+                # Generic alias `Class[T1, T2]`: the type parameters are annotations (dropped by the extraction)
+                yield base, s1
+                continue
             if isinstance(e.slice, ast.Slice):
                 yield from self.ev_slice(base, e.slice, s1)
                 continue
@@ -1673,6 +1681,9 @@ class Executor:
             s2.assume(cz)
         kv, s2 = self.ev1(e.key, s2)
         vv, s2 = self.ev1(e.value, s2)
+        want0 = getattr(self, "expect_type", None)
+        if isinstance(want0, Dict) and not want0.counter and not want0.default:
+            kv, vv = self.coerce(kv, want0.k, s2), self.coerce(vv, want0.v, s2)     # typed by the assignment target
         kv, vv = self.guess_tuple(kv, s2), self.guess_tuple(vv, s2)
         if isinstance(vv, PyConst) and isinstance(vv.v, int) and not isinstance(vv.v, bool):
             vv = int_val(vv.v)
